@@ -470,6 +470,58 @@ func refMatch(d *svc.EventTriggerDefinition, log *types.Log) (bool, bool) {
 	return all, determined
 }
 
+// lacksReferencedTopic reports whether d references a topic position the log
+// does not have.
+func lacksReferencedTopic(d *svc.EventTriggerDefinition, log *types.Log) bool {
+	for _, p := range d.LogPredicates {
+		if p.LogValueRef.Offset < 4 && p.LogValueRef.Offset >= uint64(len(log.Topics)) {
+			return true
+		}
+	}
+	return false
+}
+
+// chainVerdict is the verdict the syncer checks judge fired triggers by. For
+// logs on which every reference is defined it is the reference semantics of
+// docs/event.md (refMatch). docs/event.md is silent about a predicate on a
+// topic the log does not carry; there the verdict is what the repository's own
+// Match answers, which turns the comparison into C17's "never hidden" relation
+// (what Match accepts must not be kept away from it by the node-side filter)
+// instead of a judgement of Match itself. A reference that leaves the log
+// data is a harness error (the generators never build such logs).
+func chainVerdict(d *svc.EventTriggerDefinition, log *types.Log) bool {
+	if log.Address == d.Contract && lacksReferencedTopic(d, log) {
+		cp := *log
+		m, err := d.Match(&cp)
+		if err != nil {
+			panic("harness: Match returned an error on a generated log: " + err.Error())
+		}
+		// cross-check: Match is expected to read a missing topic as the empty value
+		empty := true
+		for _, p := range d.LogPredicates {
+			var v []byte
+			if p.LogValueRef.Offset >= 4 || p.LogValueRef.Offset < uint64(len(log.Topics)) {
+				var ok bool
+				if v, ok = refValue(p.LogValueRef, log); !ok {
+					panic("harness: log not well formed for a definition watching its contract: " + defDesc(d))
+				}
+			}
+			if !refPredicate(p.ValuePredicate, v) {
+				empty = false
+			}
+		}
+		if empty != m {
+			panic(fmt.Sprintf("Match answers %v but reading the missing topic as the empty value gives %v: %s on a log with %d topics, data %x", m, empty, defDesc(d), len(log.Topics), log.Data))
+		}
+		return m
+	}
+	match, determined := refMatch(d, log)
+	if !determined {
+		panic("harness: log not well formed for a definition watching its contract: " + defDesc(d))
+	}
+	return match
+}
+
 // ---------------------------------------------------------------------------
 // generators for valid definitions and well-formed logs relative to them
 
